@@ -93,6 +93,7 @@ func varity(op byte) int {
 
 type vStepOpts struct {
 	depth, k, adepth, cdepth, extra int
+	executing                       bool // the branch is executing: no early return pending (condition stack empty unless cdepth > 0)
 	bigTop                          int  // >0: the top operand may be up to bigTop bytes long (numeric count operands)
 	inUnlock                        bool // place the instruction in the unlocking script, behind two NOPs, with a symbolic code-separator position
 	withTx                  bool
@@ -187,7 +188,7 @@ func vstepThread(o vStepOpts) (*thread, byte, bool) {
 	}
 	th.numOps = vnondetInt("numops")
 	vassume(th.numOps >= 0 && th.numOps <= th.cfg.MaxOps())
-	if th.afterGenesis {
+	if th.afterGenesis && !o.executing {
 		th.earlyReturnAfterGenesis = vnondetBool("earlyreturn")
 	}
 	return th, op, true
